@@ -27,9 +27,21 @@ Proof. exact picker_depths. Qed.
 Theorem C20_anchors : depth_passed_as_tuple = true /\ matcher_quaternion_lookup = true.
 Proof. split; reflexivity. Qed.
 
+(** lengths given in nanometres reach the per-chunk kernels in voxels: sigma / scale for the LoG and DoG filters and for their
+    exclusion radius, min_distance / scale for the template matcher (generated expressions and call-binding facts); so the same
+    physical length selects the same physical neighbourhood at every voxel size *)
+Theorem C20_lengths_in_voxels : forall sigma scale : Q, ~ Qeq scale 0 ->
+  Qeq (Qmult (log_sigma_px sigma scale) scale) sigma /\ Qeq (Qmult (dog_sigma_low_px sigma scale) scale) sigma /\
+  Qeq (Qmult (dog_sigma_high_px sigma scale) scale) sigma /\ picker_lengths_reach_the_kernels_in_voxels = true.
+Proof.
+  intros sigma scale H. unfold log_sigma_px, dog_sigma_low_px, dog_sigma_high_px.
+  split; [field; exact H|]. split; [field; exact H|]. split; [field; exact H|]. reflexivity.
+Qed.
+
 Print Assumptions C20_cores_partition.
 Print Assumptions C20_no_duplicates.
 Print Assumptions C20_offset.
 Print Assumptions C20_units.
 Print Assumptions C20_depths.
 Print Assumptions C20_anchors.
+Print Assumptions C20_lengths_in_voxels.
